@@ -142,6 +142,8 @@ def check(repo, col, tier):
         except Und as e:
             col.unk("R-C04-eq", fi, "compute_current", f"outside the analysable fragment: {e}", node=fi.node)
 
+        # ---- the gate functions are evaluated with the same arguments wherever they are used
+        _sibling_gate_calls(repo, col, name, sp, cinfo)
         # ---- keys
         _check_keys(repo, col, cinfo, kind)
 
@@ -151,6 +153,36 @@ def check(repo, col, tier):
     _check_rename(repo, col)
     col.info["programs"] = programs
     col.info["disagreements_checked"] = sum(1 for o in col.obs if o.rule == "R-C04-eq" and o.status != "DISCHARGED")
+
+
+def _sibling_gate_calls(repo, col, name, sp, cinfo, R="R-C04-eq"):
+    """update_states, init_state (and compute_current) of one mechanism call its gate functions: every call of a gate must
+    hand over the same quantities (the voltage and the same entries of `params`).  A call that drops an argument (falling
+    back to a default added to the gate's signature) makes the initial state / current belong to other kinetics than the
+    update."""
+    from . import idx as _idx
+    calls = {}
+    for mname in ("update_states", "init_state", "compute_current"):
+        m = cinfo.methods.get(mname)
+        if m is None:
+            continue
+        ex = _idx.expander(repo, m)
+        for c in ex.calls:
+            if isinstance(c.func, ast.Attribute) and isinstance(c.func.value, ast.Name) and c.func.value.id == "self" and c.func.attr in sp["gates"]:
+                t = ex.term(c)
+                sig = tuple(a.key() for a in t.args[1:]) + tuple(sorted((k, v.key()) for k, v in t.kw.items()))
+                calls.setdefault(c.func.attr, []).append((mname, sig, c, m))
+    for gate, lst in sorted(calls.items()):
+        sigs = {sig for _m, sig, _c, _fi in lst}
+        if len(lst) < 2:
+            continue
+        ref = lst[0]
+        for mname, sig, c, m in lst[1:]:
+            col.check(sig == ref[1], R, m, f"{name}.{mname} evaluates {gate} with the same arguments as {ref[0]}",
+                      f"{len(sig)} argument(s)",
+                      f"`{unparse(c)}` in {mname} and `{unparse(ref[2])}` in {ref[0]} hand different arguments to the same gate function: "
+                      f"a dropped argument silently takes the default of the gate's signature, so the state written by {mname} belongs "
+                      f"to other kinetics than the update", node=c)
 
 
 def clipped_exponentials(repo, col, R, ev, fi, name, fn, refs):
